@@ -36,6 +36,7 @@ type Run struct {
 	Tier   string
 	Seed   int64
 	Root   string // /verif
+	Out    string // where evidence/ and replays/ are written (Root unless VERIF_OUTDIR is set)
 	Replay string // path of a replay file, if replaying
 
 	start time.Time
@@ -93,6 +94,10 @@ func Start(id string) *Run {
 	r.Root = os.Getenv("VERIF_ROOT")
 	if r.Root == "" {
 		r.Root = "/verif"
+	}
+	r.Out = os.Getenv("VERIF_OUTDIR") // seeded/self-test runs write evidence and replays elsewhere
+	if r.Out == "" {
+		r.Out = r.Root
 	}
 	if w := os.Getenv("VERIF_WORKER"); w != "" {
 		parts := strings.Split(w, "/")
@@ -393,7 +398,7 @@ func (r *Run) Finish(c Coverage) {
 		}
 		newV = append(newV, s)
 	}
-	if old, _ := filepath.Glob(filepath.Join(r.Root, "replays", r.ID+"-*.json")); r.Replay == "" {
+	if old, _ := filepath.Glob(filepath.Join(r.Out, "replays", r.ID+"-*.json")); r.Replay == "" {
 		for _, f := range old {
 			os.Remove(f)
 		}
@@ -454,8 +459,8 @@ func (r *Run) Finish(c Coverage) {
 		ev["assumptions"] = []string{}
 	}
 	data, _ := json.MarshalIndent(ev, "", " ")
-	os.MkdirAll(filepath.Join(r.Root, "evidence"), 0o755)
-	if err := os.WriteFile(filepath.Join(r.Root, "evidence", r.ID+".json"), append(data, '\n'), 0o644); err != nil {
+	os.MkdirAll(filepath.Join(r.Out, "evidence"), 0o755)
+	if err := os.WriteFile(filepath.Join(r.Out, "evidence", r.ID+".json"), append(data, '\n'), 0o644); err != nil {
 		r.Fault("evidence: %v", err)
 	}
 	fmt.Printf("%s tier=%s states=%d transitions=%d executions=%d distinct=%d exhaustive=%v known=%d new=%d wall=%.1fs\n",
@@ -469,7 +474,7 @@ func (r *Run) Finish(c Coverage) {
 func (r *Run) writeReplay(v *Violation) string {
 	sum := sha256.Sum256([]byte(v.Sig))
 	name := fmt.Sprintf("%s-%s.json", r.ID, hex.EncodeToString(sum[:5]))
-	dir := filepath.Join(r.Root, "replays")
+	dir := filepath.Join(r.Out, "replays")
 	os.MkdirAll(dir, 0o755)
 	path := filepath.Join(dir, name)
 	data, _ := json.MarshalIndent(map[string]any{
